@@ -54,7 +54,7 @@ Definition nf_class (t : ttype) : N :=
   | WOk (Some (FComment _)) _ => 2
   | WOk (Some (FDesc _)) _ => 3
   | WOk (Some _) _ => 4
-  | WErr _ _ => 5
+  | WErr _ _ _ => 5
   | _ => 6
   end.
 (* the Go arms in source order: EOF, EOL, RBRACE, COMMENT/BLOCK_COMMENT, DESCRIPTION, IDENT/BOOL, default *)
@@ -81,7 +81,7 @@ Definition ws_class (t : ttype) : N :=
     | None, None => 3
     end
   | WOk _ _ => 5
-  | WErr _ _ => 4
+  | WErr _ _ _ => 4
   | _ => 6
   end.
 Definition ws_arm_classes : list N := [0; 1; 2; 3; 4].
